@@ -6,6 +6,7 @@
 package main
 
 import (
+	"context"
 	"errors"
 	"fmt"
 	"hash/fnv"
@@ -97,7 +98,7 @@ func (o *observer) snapshot() []string {
 	return append([]string{}, o.log...)
 }
 
-func render(mode byte, log []string) string {
+func render(mode byte, log []string, allowed map[string]bool) string {
 	vals := []string{}
 	shape := true
 	for i, t := range log {
@@ -136,8 +137,51 @@ func render(mode byte, log []string) string {
 		return fmt.Sprintf("n=%d,wf=%s,end=%s", len(vals), wf, end)
 	case 'E':
 		return fmt.Sprintf("wf=%s,end=%s", wf, end)
+	case 'C':
+		chain := strings.Join(vals, ",")
+		if allowed[chain] {
+			chain = "ok"
+		}
+		return fmt.Sprintf("chain=%s,end=%s", chain, end)
 	}
 	return strings.Join(log, ",")
+}
+
+// gate holds the evaluations of one round of a "race" case until all of them have started or gateWait has
+// passed: evaluations that the engine allows to overlap do overlap.  It changes timing only.
+const gateWait = 30 * time.Millisecond
+
+type gate struct {
+	mu      sync.Mutex
+	n       int
+	arrived int
+	all     chan struct{}
+}
+
+func newGate(n int) *gate { return &gate{n: n, all: make(chan struct{})} }
+
+func (g *gate) arrive() {
+	g.mu.Lock()
+	g.arrived++
+	if g.arrived == g.n {
+		close(g.all)
+	}
+	g.mu.Unlock()
+	select {
+	case <-g.all:
+	case <-time.After(gateWait):
+	}
+}
+
+// gatedExpr is the wrapped expression, evaluated after passing the gate.
+type gatedExpr struct {
+	rel.Expr
+	g *gate
+}
+
+func (x gatedExpr) Eval(ctx context.Context, local rel.Scope) (rel.Value, error) {
+	x.g.arrive()
+	return x.Expr.Eval(ctx, local)
 }
 
 // a client is one goroutine; its calls are handed to it one at a time
@@ -211,8 +255,24 @@ func parse(fields []string) ([]*op, []*observer, int, string) {
 }
 
 func runEngine(payload []string) string {
-	par := payload[0] == "par"
-	ops, observers, maxClient, bad := parse(payload[1:])
+	par := payload[0] == "par" || payload[0] == "race"
+	fields := payload[1:]
+	allowed := map[string]bool{}
+	var roundStart []int // "race": index of the first operation of every round
+	if payload[0] == "race" {
+		for _, c := range strings.Split(payload[1], ";") {
+			allowed[c] = true
+		}
+		fields = nil
+		for _, f := range payload[2:] {
+			if f == "B" {
+				roundStart = append(roundStart, len(fields))
+			} else {
+				fields = append(fields, f)
+			}
+		}
+	}
+	ops, observers, maxClient, bad := parse(fields)
 	if bad != "" {
 		return "harness-error:" + bad
 	}
@@ -313,7 +373,40 @@ func runEngine(payload []string) string {
 				break
 			}
 		}
-		if !aborted {
+		if !aborted && roundStart != nil {
+			for r, from := range roundStart {
+				to := len(ops)
+				if r+1 < len(roundStart) {
+					to = roundStart[r+1]
+				}
+				g := newGate(to - from)
+				for j := from; j < to; j++ {
+					exprs[j] = gatedExpr{exprs[j], g}
+				}
+				start := make(chan struct{})
+				res := make([]string, to-from)
+				var wg sync.WaitGroup
+				for j := from; j < to; j++ {
+					wg.Add(1)
+					go func(j int) {
+						defer wg.Done()
+						<-start
+						res[j-from] = issue(j)
+					}(j)
+				}
+				close(start) // all calls of the round are made together
+				wg.Wait()    // the next round starts after every call of this one has returned
+				for j := from; j < to; j++ {
+					chars[ops[j].client].WriteString(res[j-from])
+					if res[j-from] == "T" {
+						aborted = true
+					}
+				}
+				if aborted {
+					break
+				}
+			}
+		} else if !aborted {
 			h := fnv.New64a()
 			h.Write([]byte(strings.Join(payload, "\t")))
 			seed := int64(h.Sum64())
@@ -394,7 +487,7 @@ func runEngine(payload []string) string {
 		sb.WriteString("R=" + seqChars.String())
 	}
 	for _, o := range observers {
-		fmt.Fprintf(&sb, "|%d:%s", o.ordinal, render(o.mode, o.snapshot()))
+		fmt.Fprintf(&sb, "|%d:%s", o.ordinal, render(o.mode, o.snapshot(), allowed))
 	}
 	return sb.String()
 }
